@@ -46,10 +46,11 @@ CLAIMS = {
  "C14": dict(cat="proof", tech="Lean 4 proofs (definitional characterisation, antisymmetry) + exact differential replay",
    text="Theorems over whole streams: CrossAbove/CrossUnder fire exactly under their documented condition (construction difference "
         "as step -1), Cross is their signed combination, the two never fire together, swapping the series negates every output. "
-        "Reversal detectors: exact model (unbounded positions) replayed against the code on plateau/tie streams longer than "
-        "PeriodType::MAX for all small (left,right) and boundary pairs.",
-   note=COMMON_NOTE + "PARTIAL: the reversal rule itself (fires `right` steps after a local extremum, ties to the newest) is validated "
-        "against the model, not yet proved against a declarative spec.",
+        "Upper/LowerReversalSignal, every left,right >= 1, every stream: the remembered pair is the unique newest maximum (minimum) of the "
+        "positions covered by the window, on the fast path and after a rescan, and the signal fires iff that position is exactly `right` "
+        "steps back; ReversalSignal = lower - upper. The exact model (unbounded positions) is replayed against the code on plateau/tie "
+        "streams longer than PeriodType::MAX for all small (left,right) and boundary pairs.",
+   note=COMMON_NOTE + "The first input competes with the construction value (constant prehistory at position 0), as in the code.",
    ref="DESIGN.md §5 C14"),
 
  "C16": dict(cat="proof", tech="Lean 4 proofs over the 513 actions and a bit-level binary64 model (decide +kernel for the finite tables) + exhaustive differential enumeration",
